@@ -1,68 +1,16 @@
-(* Preservation of the overlay invariant of SemLive.v, part A: tactics, L1 (agents), L6 (parked), L7 (fresh). *)
+(* Preservation of the overlay invariant of SemLive.v, part A: L1 (agents), L6 (parked), L7 (fresh).
+   The tactics and the proof script of every clause are in SemLiveTac.v (re-exported here). *)
 From Coq Require Import List Arith ZArith Bool Lia.
 Import ListNotations.
-Require Import MayV.Sync.SemModel MayV.Sync.SemInv MayV.Sync.SemTac MayV.Sync.SemLive.
+Require Import MayV.Sync.SemModel MayV.Sync.SemInv MayV.Sync.SemTac MayV.Sync.SemCase MayV.Sync.SemLive.
+Require Export MayV.Sync.SemLiveTac.
 Open Scope Z_scope.
 
-Ltac ostep_red :=
-  unfold lstep;
-  repeat match goal with
-  | E : apc ?x = _ |- context [match apc ?x with _ => _ end] => rewrite E
-  | E : q ?s = _ |- context [match q ?s with _ => _ end] => rewrite E
-  | E : ?c = true |- context [if ?c then _ else _] => rewrite E
-  | E : ?c = false |- context [if ?c then _ else _] => rewrite E
-  | E : reason ?b = _ |- context [match reason ?b with _ => _ end] => rewrite E
-  end;
-  cbv beta iota zeta;
-  unfold set_ag, set_dl, set_rp, set_sc, set_fl; cbn [ag dl rp sc fl].
-
-Ltac prj := cbn [cnt q nextb A Bk ini uposts succ ung giv pre hand owe mk].
-Ltac prj_all := cbn [cnt q nextb A Bk ini uposts succ ung giv pre hand owe mk apc ab aw actx atimed acomp av ares tok parked reason unp rel owner fresh ag dl rp sc fl] in *.
-
-(* discharge arithmetic premises of implications in the context *)
-Ltac arith_prem := repeat match goal with
-  | H : ?P -> _ |- _ =>
-      match P with
-      | (_ <= _)%nat => idtac | (_ < _)%nat => idtac | (_ <= _ < _)%nat => idtac
-      end;
-      let Q := fresh "Q" in assert (Q : P) by lia; specialize (H Q); clear Q
-  end.
-
-Ltac lsetup Hi H :=
-  g_facts Hi; step_cases H; ostep_red; prj.
-
 Lemma pres_L6 s o ac s' : Inv s -> LInv s o -> step s ac = Some s' -> L6 s' (lstep s o ac).
-Proof.
-  intros Hi HL H. pose proof (IL6 _ _ HL) as P6. unfold L6 in *.
-  lsetup Hi H; intro x; pose proof (P6 x) as Px; pose proof (P6 a) as Pa.
-  all: a_facts Hi a; a_facts Hi x; b_facts Hi (nextb s).
-  all: unfold set_pc, set_ctx, set_res, set_av; upd_tac; prj_all.
-  all: repeat match goal with e : ?v = _ |- _ => is_var v; subst v end.
-  all: try (destruct (actx (A s a)) eqn:Ectx; cbn [ret_pc] in * ).
-  all: intros; brk; try mem.
-Qed.
+Proof. intros Hi HL H. l6_pre HL. lsetup Hi H. Time all: l6_script Hi s a P6. Time Qed.
 
 Lemma pres_L7 s o ac s' : Inv s -> LInv s o -> step s ac = Some s' -> L7 s' (lstep s o ac).
-Proof.
-  intros Hi HL H. pose proof (IL7 _ _ HL) as P7. unfold L7 in *.
-  lsetup Hi H; intro x; pose proof (P7 x) as Px.
-  all: a_facts Hi a.
-  all: upd_tac; prj_all.
-  all: repeat match goal with e : ?v = _ |- _ => is_var v; subst v end.
-  all: intros; brk; arith_prem; brk; try mem.
-Qed.
+Proof. intros Hi HL H. l7_pre HL. lsetup Hi H. Time all: l7_script Hi s a P7. Time Qed.
 
 Lemma pres_L1 s o ac s' : Inv s -> LInv s o -> step s ac = Some s' -> L1 s' (lstep s o ac).
-Proof.
-  intros Hi HL H. pose proof (IL1 _ _ HL) as P1. unfold L1 in *.
-  lsetup Hi H; intro x; pose proof (P1 x) as Px; pose proof (P1 a) as Pa.
-  all: a_facts Hi a; a_facts Hi x; b_facts Hi (nextb s).
-  all: try match goal with E : NoDup (?n :: _) |- _ => inversion E; subst end.
-  all: try match goal with E : q _ = _ :: _ |- _ => rewrite E in * end.
-  all: unfold set_pc, set_ctx, set_res, set_av; upd_tac; prj_all; lists.
-  all: repeat match goal with e : ?v = _ |- _ => is_var v; subst v end.
-  all: try (destruct (actx (A s a)) eqn:Ectx; cbn [ret_pc] in * ).
-  all: unfold agentpc in *; repeat match goal with E : apc _ = _ |- _ => rewrite E in * end; cbn [apc] in *.
-  all: try match goal with Q : forall b, ?n = b \/ _ -> (_ <= b < _)%nat |- _ => pose proof (Q n (or_introl eq_refl)) end.
-  all: intros; brk; try mem.
-Qed.
+Proof. intros Hi HL H. l1_pre HL. lsetup Hi H. Time all: l1_script Hi s a P1. Time Qed.
